@@ -11,7 +11,9 @@ option dictionaries' identity (assumed; they are exercised by drivers c07-c11). 
     nothing unless the caller passes them the same objects").
 The emitters, get_nodes/compute and the module-level default scale's use after construction are not under contract.
 """
-from pyvc.values import Str, NONE
+import z3
+
+from pyvc.values import Str, NONE, Num, RefS, RealS, IntS
 
 TYPES = {}
 SPECFUNS = {}
@@ -68,4 +70,67 @@ for _name, _opts in (("none", "none"),
               ("callers_dict_unchanged", "'scale' not in old(options) and len(old(options)) == 3 and len(old(options)['labella']) == 1 "
                                          "and len(old(options)['latex']) == 1")]
              if _name == "nested" else []),
+    }
+
+
+# ---------------------------------------------------------------------------------------------------- Timeline.get_nodes
+# C07 "exactly one label box per datum ... at its true time", C08: the width handed to the solver is the extent of the DRAWN
+# box along the axis (the emitters draw node.w x node.h; Renderer.layout spaces the boxes by node.width).
+def TP(E, P, ctx, d):
+    """position of a datum on the axis = scale(timeFn(datum)): uninterpreted here (scale contracts: contracts/scale.py)"""
+    f = E.uf.get("TIMEPOS")
+    if f is None:
+        f = E.uf["TIMEPOS"] = z3.Function("TIMEPOS", RefS, RealS)
+    return [(P, Num(f(d.t), False))]
+
+
+def nlast(E, P, ctx, n):
+    return [(P, Num(z3.Select(E.heap_array(P, "Node.$lastpos", IntS), n.t), True))]
+
+
+SPECFUNS.update({"TP": TP, "nlast": nlast})
+
+_TIMEPOS_SUMMARY = {"requires": [], "modifies": [], "returns": "real", "ensures": ["result == TP(thedict)"]}
+_PAD = {"$dict": {"left": "real", "right": "real", "top": "real", "bottom": "real"}}
+_ALONG = "self.items[j].width + self.options['labelPadding']['left'] + self.options['labelPadding']['right']"
+_ACROSS = "self.items[j].height + self.options['labelPadding']['top'] + self.options['labelPadding']['bottom']"
+_NODE_W = ["Node.w", "Node.h", "Node.width"]
+_NODE_NEW = ["Node.child", "Node.currentPos", "Node.data", "Node.dx", "Node.dx$set", "Node.dy", "Node.dy$set", "Node.h", "Node.idealPos",
+             "Node.layerIndex", "Node.overlap", "Node.overlapCount", "Node.parent", "Node.w", "Node.width", "Node.x", "Node.x$set",
+             "Node.y", "Node.y$set"]
+_CREATED = ("nodes[j] is not None and nlast(nodes[j]) == j and nodes[j].data is self.items[j] and nodes[j].idealPos == TP(self.items[j].data) "
+            "and nodes[j].currentPos == nodes[j].idealPos and nodes[j].parent is None and nodes[j].child is None and nodes[j].layerIndex == 0")
+for _d in ("up", "down", "left", "right"):
+    _vert = _d in ("left", "right")
+    # the box drawn for a node is w x h in screen coordinates; vertical timelines swap the two
+    _sized = ("nodes[j].w == %s and nodes[j].h == %s and nodes[j].width == %s" % ((_ACROSS, _ALONG, "nodes[j].h") if _vert
+                                                                                 else (_ALONG, _ACROSS, "nodes[j].w")))
+    CONTRACTS["timeline.Timeline.get_nodes@%s" % _d] = {
+        "props": ["C07", "C08"], "heap": True, "func_alias": "timeline.Timeline.get_nodes",
+        "params": {"self": {"$obj": ("timeline", "Timeline"),
+                            "fields": {"items": "slist:ref:Item",
+                                       "options": {"$dict": {"labelPadding": _PAD, "direction": lambda E, P, name, _d=_d: Str([_d])}}}}},
+        "requires": ["forall(lambda j: implies(0 <= j < len(self.items), self.items[j] is not None))"],
+        "callee_contracts": {"timeline.Timeline.timePos": _TIMEPOS_SUMMARY},
+        "slist_locals": {"nodes": "slist:ref:Node"},
+        "modifies": ["list.len.ref~Node", "list.elems.ref~Node", "Node.$lastpos", "Node.$lastlist"] + _NODE_NEW,
+        "allocates": ["Node", "list"], "returns": "slist:ref:Node",
+        "loops": {
+            "for it in self.items": {
+                "label": "_create", "index": "_kc", "locals": {"it": "ref:Item", "n": "ref:Node"},
+                "modifies": ["list.len.ref~Node", "list.elems.ref~Node", "Node.$lastpos", "Node.$lastlist"] + _NODE_NEW, "allocates": ["Node"],
+                "inv": [("one_node_per_item", "nodes is not None and fresh(nodes) and len(nodes) == _kc"),
+                        ("created", "forall(lambda j: implies(0 <= j < _kc, %s and fresh(nodes[j])))" % _CREATED)]},
+            "for node in nodes": {
+                "label": "_size", "index": "_ks", "locals": {"node": "ref:Node"}, "modifies": _NODE_W,
+                "inv": [("created_kept", "len(nodes) == len(self.items) and forall(lambda j: implies(0 <= j < len(nodes), %s))" % _CREATED),
+                        ("prefix_sized", "forall(lambda j: implies(0 <= j < _ks, %s))" % _sized)]},
+        },
+        "ensures": [("one_node_per_datum", "result is not None and len(result) == len(self.items)"),
+                    ("node_of_datum_j", "forall(lambda j: implies(0 <= j < len(result), result[j] is not None and result[j].data is self.items[j]))"),
+                    ("at_its_own_time", "forall(lambda j: implies(0 <= j < len(result), result[j].idealPos == TP(self.items[j].data) and result[j].currentPos == result[j].idealPos))"),
+                    ("no_stubs_yet", "forall(lambda j: implies(0 <= j < len(result), result[j].parent is None and result[j].child is None and result[j].layerIndex == 0))"),
+                    ("box_is_text_plus_padding", "forall(lambda j: implies(0 <= j < len(result), %s))" % _sized.replace("nodes[j]", "result[j]").rsplit(" and ", 1)[0]),
+                    ("solver_width_is_drawn_extent_along_the_axis", "forall(lambda j: implies(0 <= j < len(result), result[j].width == %s))"
+                     % ("result[j].h" if _vert else "result[j].w"))],
     }
